@@ -139,6 +139,37 @@ def run(facts, R):
             R.undecide("escape-tables", jp.path, "json_pointer::parse closure is no longer a replace chain")
     else:
         R.undecide("escape-tables", "json_pointer::parse", "token closure not found")
+    # generic: every nested str::replace chain over RFC 6901 escapes applies them in the mandated order
+    n_chain = 0
+    for b in facts.bodies.values():
+        if not (b.path.startswith("registry::") or b.path.startswith("json_pointer::") or b.path.startswith("server::")):
+            continue
+        sb = Sym(b)
+        for i, t in b.calls():
+            if t["callee"]["name"] != "replace" or "str" not in t["callee"]["path"]:
+                continue
+            outer = ("call", t["callee"]["path"], tuple(sb.op(a) for a in t["args"]), i)
+            inner = outer[2][0]
+            if not (inner[0] == "call" and inner[1].endswith("replace") and len(inner[2]) == 3 and len(outer[2]) == 3):
+                continue
+
+            def lit(e):
+                if e[0] == "str":
+                    return e[1]
+                if e[0] == "const" and isinstance(e[1], int):
+                    return chr(e[1])
+                return None
+            a, bb_, c, d = lit(inner[2][1]), lit(inner[2][2]), lit(outer[2][1]), lit(outer[2][2])
+            if {a, c} == {"~0", "~1"}:
+                n_chain += 1
+                R.check(a == "~1" and bb_ == "/" and c == "~0" and d == "~", "escape-tables", b.path, "unescape chain order",
+                        "reference tokens are unescaped as replace(%r,%r).replace(%r,%r): RFC 6901 requires '~1'->'/' before '~0'->'~' (otherwise '~01' decodes to '/')" % (a, bb_, c, d),
+                        t.get("span"), "'~1'->'/' then '~0'->'~'")
+            elif {a, c} == {"~", "/"}:
+                n_chain += 1
+                R.check(a == "~" and bb_ == "~0" and c == "/" and d == "~1", "escape-tables", b.path, "escape chain order",
+                        "tokens are escaped as replace(%r,%r).replace(%r,%r): '~' must be escaped before '/'" % (a, bb_, c, d), t.get("span"), "'~'->'~0' then '/'->'~1'")
+    R.floor("escape-tables", n_chain, 2, "escape/unescape replace chains")
     ut = facts.body("registry::unescape_token")
     us = Sym(ut)
     uo = callsite_ordinals(ut)
@@ -159,7 +190,10 @@ def run(facts, R):
         table.add((key, ch))
     want_esc = {("48", "126"), ("49", "47")}
     got_esc = {x for x in table if x[0] != "plain"}
-    if any(k == "?" for k, _ in got_esc) or not got_esc:
+    ut_chain = any(t["callee"]["name"] == "replace" for i, t in ut.calls())
+    if ut_chain:
+        R.ok("escape-tables", ut.path, "unescape_token is a replace chain", ut.span, "order decided by the generic chain rule above")
+    elif any(k == "?" for k, _ in got_esc) or not got_esc:
         R.undecide("escape-tables", ut.path, "unescape_token no longer has the char-loop shape (%s)" % sorted(table))
     else:
         R.check(got_esc == want_esc, "escape-tables", ut.path, "~0 -> '~', ~1 -> '/'", "unescape table is %s" % sorted(got_esc), ut.span, "{~0:'~', ~1:'/'}")
